@@ -10,6 +10,8 @@ ALLOC = "fidget-core/src/compiler/alloc.rs"
 DATA = "fidget-core/src/vm/data.rs"
 MMAP = "fidget-jit/src/mmap.rs"
 
+SHAPE = "fidget-core/src/shape/mod.rs"
+
 
 def find_call(calls, recv_suffix, method, arg0=None, arg0_contains=None):
     out = []
@@ -474,6 +476,32 @@ def r_trace_copy(rule, root=None):
         rule.lost("the two Trace::copy_from implementations (found %d)" % n)
 
 
+def r_var_rows_rewritten(rule, root=None):
+    """the rows that carry a shape's free variables live in the evaluator's recycled scratch: whatever a previous call
+    (another shape, an array-valued variable, zero padding after growth) left there must be overwritten, so the helpers
+    that fill them write every element on every call - not only when the row "looks" different"""
+    for name, writes in (("var_value", ("fill",)), ("var_array", ("copy_from_slice", "clone_from_slice"))):
+        try:
+            fn = A.find_fn(SHAPE, name, self_ty="ShapeBulkEval", root=root)
+        except A.AnchorLost:
+            rule.lost("ShapeBulkEval::%s" % name)
+            continue
+        ws = [c for c in A.find(fn["body"], "MethodCall") if c["method"] in writes and str(A.ftxt(A.strip(c["recv"]))) in ("data", "*data")]
+        if not ws:
+            # an explicit element loop is the same thing
+            loops = [f for f in A.find(fn["body"], "For") if "data" in str(A.ftxt(f["iter"]))]
+            if loops and not (A.enclosing_conds(fn["body"], loops[0]) or []):
+                rule.ok("ShapeBulkEval::%s writes every element of the row (loop)" % name, file=SHAPE, line=fn["ln"])
+            else:
+                rule.bad("%s|write" % name, "ShapeBulkEval::%s must overwrite the whole variable row it is handed" % name, A.where(SHAPE, fn))
+            continue
+        conds = [c for c in (A.enclosing_conds(fn["body"], ws[0]) or []) if not c.replace(" ", "").lstrip("!(").startswith(("let", "match"))]
+        if conds:
+            rule.bad("%s|conditional" % name, "ShapeBulkEval::%s rewrites the variable row only under `%s`: the row is recycled scratch, and a stale interior (an earlier array-valued variable, another shape's axis samples, +0.0 padding where -0.0 is wanted) passes any test that looks at a few elements" % (name, conds[-1][:80]), A.where(SHAPE, ws[0]))
+        else:
+            rule.ok("ShapeBulkEval::%s rewrites the whole row on every call" % name, file=SHAPE, line=ws[0]["ln"])
+
+
 def run(ctx):
     r = ctx.rule("R1", "every evaluator sizes (and for choices, refills) its buffers from the tape before evaluating", 19)
     ctx.guarded(r, r1_buffers)
@@ -481,6 +509,13 @@ def run(ctx):
 
     r = ctx.rule("R1s", "the shape evaluators re-size their scratch on every call: one row per variable of this tape (at least one), every row - the placeholder row of a variable-free tape included - to this call's batch length", 3)
     ctx.guarded(r, SC_.r_shape_scratch)
+    r = ctx.rule("R1v", "variable rows in the shape evaluator's scratch are rewritten in full on every call", 2)
+    ctx.guarded(r, r_var_rows_rewritten)
+    from .. import vmloops as V_
+
+    r = ctx.rule("R1o", "Output arms of the four interpreter loops copy the register into the output row (a register is read again when one node feeds two outputs, and the output rows are the evaluator's own recycled buffers: nothing is moved or swapped)", 4)
+    for label_ in ("point", "interval", "float_slice", "grad_slice"):
+        ctx.guarded(r, lambda rule, label_=label_: V_.check_loop(rule, label_, only=("Output",)))
     r = ctx.rule("R2", "reset() of allocator, workspace and tapes re-initialises every field; simplify resets recycled storage", 16)
     ctx.guarded(r, r2_resets)
     r = ctx.rule("R2b", "copying a trace into a recycled allocation leaves exactly the source trace", 2)
